@@ -32,9 +32,15 @@ def main() -> int:
             if a == '--replay':
                 argv[i + 1] = os.path.abspath(argv[i + 1])
         sys.argv = argv
-        cwd = tempfile.mkdtemp(prefix='verif-cwd-', dir=_scratch_root())
+        # one scratch directory per run: the empty working directory and everything the tasks write live below it and
+        # are removed when the run ends (also what tasks killed by the wall-clock backstop left behind)
+        run_dir = tempfile.mkdtemp(prefix='verif-run-', dir=_scratch_root())
+        cwd = os.path.join(run_dir, 'cwd')
+        os.makedirs(cwd)
+        os.makedirs(os.path.join(run_dir, 'tmp'))
         env['VERIF_CWD'] = cwd
-        env['VERIF_SCRATCH'] = _scratch_root()
+        env['VERIF_RUN_DIR'] = run_dir
+        env['VERIF_SCRATCH'] = os.path.join(run_dir, 'tmp')
         os.chdir(cwd)
         os.execve(sys.executable, [sys.executable, '-B', os.path.join(VERIF, 'check.py')] + sys.argv[1:], env)
     sys.path.insert(0, VERIF)
@@ -43,11 +49,11 @@ def main() -> int:
         from sim import harness
         return harness.main(sys.argv[1:])
     finally:
-        cwd = os.environ.get('VERIF_CWD')
-        if cwd and os.path.isdir(cwd):
+        run_dir = os.environ.get('VERIF_RUN_DIR')
+        if run_dir and os.path.isdir(run_dir) and os.path.basename(run_dir).startswith('verif-run-'):
             import shutil
             os.chdir('/')
-            shutil.rmtree(cwd, ignore_errors=True)
+            shutil.rmtree(run_dir, ignore_errors=True)
 
 
 if __name__ == '__main__':
